@@ -113,8 +113,8 @@ def register(P):
     P.ORACLE_COMPONENT["mtu"] = "mtu"
     P.PROPS["C14"] = {
         "lean": ["UtpVerif.Props.C14"],
-        "components": ["mtu"],
-        "oracles": {"mtu": oracle_mtu(P)},
+        "components": ["mtu", "segs"],
+        "oracles": {"mtu": oracle_mtu(P), "segs": lambda case, impl: P.SEGS_ORACLE(case, impl)},
         "directed": {"mtu": lambda seed: gen_mtu(P)(seed, "quick")},
         "rule": "SegmentSizes driven by random op sequences and by a consistent path oracle over link MTUs 0..65535, both address families; non-trivial if at least two different operations occur",
         "assumptions": [],
